@@ -28,9 +28,14 @@ func VF_C14_Pair() {
 	dump, _ := state_machines.VFDump(abs, "round")
 	msg := vfGenuineMessage(ev, 1)
 	// an operation issued earlier, whose result the operator submits through the API right now
-	pend := types.NewOperation("round", []byte("earlier-request"), "state_earlier")
-	result := &dto.OperationDTO{ID: pend.ID, Type: string(pend.Type), Payload: pend.Payload, DkgID: "round", Event: fsm.Event("event_earlier_result"),
-		ResultMsgs: []storage.Message{{Event: "event_earlier_result", DkgRoundID: "round", Data: []byte("answer")}}}
+	// (param apiround: the round that operation belongs to - this round, or another round the node takes part in)
+	apiRound := "round"
+	if r := vf.Param("apiround"); r != "" {
+		apiRound = r
+	}
+	pend := types.NewOperation(apiRound, []byte("earlier-request"), "state_earlier")
+	result := &dto.OperationDTO{ID: pend.ID, Type: string(pend.Type), Payload: pend.Payload, DkgID: apiRound, Event: fsm.Event("event_earlier_result"),
+		ResultMsgs: []storage.Message{{Event: "event_earlier_result", DkgRoundID: apiRound, Data: []byte("answer")}}}
 
 	run := func(tag string, mode int) vfOutcome {
 		path := vfStatePath(tag)
